@@ -374,27 +374,38 @@ func etTxt(withEt bool, t int64) string {
 	return "z"
 }
 
-// node-level ops
-func genGbOps(g *Gen, tier string, w *bufio.Writer, salt int) {
-	maxLen, nrand, randLen := 4, 1500, 40
+// node-level ops.  `small` (used by C17, whose main subject is the trigger-level scripts) keeps the exhaustive part short.
+func genGbOps(g *Gen, tier string, w *bufio.Writer, salt int, small bool) {
+	// bounded-exhaustive: every SQL trigger combination x every valid stream (event time = key time) of length <= full;
+	// the lengths above `full` up to maxLen on a rotating subset of the configurations (the subset moves with the seed)
+	full, maxLen, nrand, randLen := 4, 5, 1500, 40
+	share := map[int]int{5: 5} // length -> one configuration out of `share`
+	if small {
+		full, maxLen = 3, 4
+		share = map[int]int{4: 3}
+	}
 	if tier == "thorough" {
-		maxLen, nrand, randLen = 6, 40000, 200
+		full, maxLen, nrand, randLen = 5, 7, 40000, 200
+		share = map[int]int{6: 4, 7: 19}
+		if small {
+			full, maxLen = 4, 6
+			share = map[int]int{5: 3, 6: 10}
+		}
 	}
 	cfgs := sqlTriggerConfigs(0)
 	ex := exoticTriggerConfigs(0)
-	// bounded-exhaustive: every SQL trigger combination x every valid stream up to maxLen (with event times = key time)
 	for n := 0; n <= maxLen; n++ {
 		for ci, c := range cfgs {
-			if tier != "thorough" && n == maxLen && (ci+salt)%3 != 0 {
-				continue // quick: the longest length on a third of the configurations (rotating with the seed)
+			if n > full && (ci+salt)%share[n] != 0 {
+				continue
 			}
 			enumStreams(n, "c", true, func(s string) {
 				fmt.Fprintf(w, "gb %s K2 Ac E0 :: %s\n", c, s)
 			})
 		}
 	}
-	// exotic configurations and streams without event times on shorter lengths
-	for n := 0; n <= maxLen-1; n++ {
+	// exotic configurations (nested / repeated members, n = 0, ...) on shorter lengths
+	for n := 0; n <= full-1; n++ {
 		for _, c := range ex {
 			enumStreams(n, "c", true, func(s string) {
 				if g.Chance(1, 4) || tier == "thorough" {
@@ -428,7 +439,7 @@ func genGbOps(g *Gen, tier string, w *bufio.Writer, salt int) {
 func genTrigOps(g *Gen, tier string, w *bufio.Writer) {
 	maxLen, nrand, randLen := 5, 1500, 40
 	if tier == "thorough" {
-		maxLen, nrand, randLen = 7, 40000, 300
+		maxLen, nrand, randLen = 6, 40000, 300
 	}
 	cfgs := append(sqlTriggerConfigs(0), exoticTriggerConfigs(0)...)
 	leafs := []string{"TC1", "TC2", "TC3", "TC4", "TW0", "TE"}
@@ -458,6 +469,9 @@ func genTrigOps(g *Gen, tier string, w *bufio.Writer) {
 		for _, c := range leafs {
 			rec(c, n)
 		}
+	}
+	if tier == "thorough" { // length 7 on one primitive trigger (rotating with the seed)
+		rec(leafs[int(seed())%len(leafs)], 7)
 	}
 	for n := 0; n <= maxLen-2; n++ {
 		for _, c := range cfgs {
